@@ -8,32 +8,32 @@
 // one KV handle) shared by all goroutines - that is the pattern of the
 // statement; every third run is on the key-hashing kind of store.
 //
-//  calls under contention                streams
-//  Mutate (increment)                    counter (2..16 goroutines, 2 counters), lin, forced
-//  Mutate whose function fails /         forced: mutate-fail, mutate-cancel, mutate-panic (the holder's function
-//   cancels / panics while others wait     ends that way after the others have made or queued their calls; then
-//                                          writers and readers run: no lock, transaction or value may remain);
-//                                          lin: increments of a non-numeric value fail in the function
-//  AppendBytes                           append (unique tokens, per-goroutine order), lin, forced walk/append,
-//                                          mutate/append-inside; the argument is a sub-slice of a scratch page
-//                                          the goroutine overwrites after the call
-//  Add / Emplace (absent key)            addrace, emplacerace (every goroutine, every key), lin,
-//                                          forced walk/add, walk/emplace, mutate/add+emplace-inside
-//  Remove (present key)                  removerace (every goroutine removes every key: one success each), lin,
-//                                          forced walk/remove, mutate/remove-inside
-//  Replace                               lin, forced walk/replace, mutate/replace-inside
-//  Get / GetBytes / Count                lin, forced probes during a held Walk / Mutate; returned slices are
-//                                          overwritten by the caller
-//  Walk holding its read lock / SHARED   forced walk/* (11 schedules): every writer kind during the walk; a walk
-//                                          whose Do fails, cancels or panics (walk-fail/-cancel/-panic), writers after
-//  Mutate holding its lock / transaction forced mutate/*: every writer kind and readers inside; both-read-then-write
-//  BUSY then later calls                 forced (sqlite): the refused call, then the same connection pool is used
-//                                          by probes and by the calls after the holder; durable contents re-read
-//                                          after closing and reopening the file
-//  Set / SetClass / Clear / walks as     not in the statement's operation set; sequentially in harness/cmd/c05
-//   recorded concurrent calls
-//  two pools / two processes on a file   not exercised (same SQLite locking as two connections of one pool)
-//  PostgreSQL                            cannot run here (model + open finding)
+//	calls under contention                streams
+//	Mutate (increment)                    counter (2..16 goroutines, 2 counters), lin, forced
+//	Mutate whose function fails /         forced: mutate-fail, mutate-cancel, mutate-panic (the holder's function
+//	 cancels / panics while others wait     ends that way after the others have made or queued their calls; then
+//	                                        writers and readers run: no lock, transaction or value may remain);
+//	                                        lin: increments of a non-numeric value fail in the function
+//	AppendBytes                           append (unique tokens, per-goroutine order), lin, forced walk/append,
+//	                                        mutate/append-inside; the argument is a sub-slice of a scratch page
+//	                                        the goroutine overwrites after the call
+//	Add / Emplace (absent key)            addrace, emplacerace (every goroutine, every key), lin,
+//	                                        forced walk/add, walk/emplace, mutate/add+emplace-inside
+//	Remove (present key)                  removerace (every goroutine removes every key: one success each), lin,
+//	                                        forced walk/remove, mutate/remove-inside
+//	Replace                               lin, forced walk/replace, mutate/replace-inside
+//	Get / GetBytes / Count                lin, forced probes during a held Walk / Mutate; returned slices are
+//	                                        overwritten by the caller
+//	Walk holding its read lock / SHARED   forced walk/* (11 schedules): every writer kind during the walk; a walk
+//	                                        whose Do fails, cancels or panics (walk-fail/-cancel/-panic), writers after
+//	Mutate holding its lock / transaction forced mutate/*: every writer kind and readers inside; both-read-then-write
+//	BUSY then later calls                 forced (sqlite): the refused call, then the same connection pool is used
+//	                                        by probes and by the calls after the holder; durable contents re-read
+//	                                        after closing and reopening the file
+//	Set / SetClass / Clear / walks as     not in the statement's operation set; sequentially in harness/cmd/c05
+//	 recorded concurrent calls
+//	two pools / two processes on a file   not exercised (same SQLite locking as two connections of one pool)
+//	PostgreSQL                            cannot run here (model + open finding)
 package main
 
 import (
